@@ -34,6 +34,70 @@ def gen_pairs(ctx, n, keys=None, multiline=True, bytes_=True, flat_share=0.25, e
     return out
 
 
+def subcontainers(v):
+    """the container sub-objects of v (the objects themselves, not copies)"""
+    kids = list(v.values()) if isinstance(v, dict) else (list(v) if isinstance(v, (list, tuple)) else [])
+    for x in kids:
+        if isinstance(x, (dict, list, tuple, set, frozenset)):
+            yield x
+            yield from subcontainers(x)
+
+
+def alias_pairs(ctx, n):
+    """pairs that share objects: t2 is a sub-object of t1 (or the reverse); t2 is a shallow copy of t1 with one top-level
+    edit (the untouched children are the same objects); one list object sits at several positions of t1.
+    DeepDiff must treat them exactly like their deep copies."""
+    g = Gen(ctx.rng, keys=['a', 'b', 'c', 1, None], max_depth=3, max_width=4, kinds=('dict', 'list', 'tuple'))
+    out = []
+    for i in range(n * 3):
+        if len(out) >= n:
+            break
+        x = g.container()
+        kind = ('child', 'shallow', 'inner', 'wrap')[i % 4]
+        if kind == 'child':
+            subs = list(subcontainers(x))
+            if not subs:
+                continue
+            c = ctx.rng.choice(subs)
+            pair = (x, c) if ctx.rng.random() < 0.5 else (c, x)
+        elif kind == 'wrap':
+            # t1 is a container of t2's type that holds the t2 object itself at a position t2 also has
+            if isinstance(x, list) and x:
+                w = [x] + [g.scalar() for _ in range(ctx.rng.randint(0, 2))]
+            elif isinstance(x, tuple) and x:
+                w = (x,)
+            elif isinstance(x, dict) and x:
+                w = {ctx.rng.choice(list(x.keys())): x}
+            else:
+                continue
+            pair = (w, x) if ctx.rng.random() < 0.7 else (x, w)
+        elif kind == 'shallow':
+            y = copy.copy(x)
+            if isinstance(y, dict):
+                y[ctx.rng.choice(['a', 'zz', 1])] = g.scalar()
+            elif isinstance(y, list):
+                y.insert(ctx.rng.randint(0, len(y)), g.scalar())
+            else:
+                y = y + (g.scalar(),)
+            pair = (x, y)
+        else:
+            L = [g.scalar() for _ in range(ctx.rng.randint(2, 4))]
+            x = {'a': L, 'b': L, 'c': [L, 0]}
+            y = copy.deepcopy(x)
+            y['a'] = y['a'][:-1]; y['b'] = y['b'][:-1] + [g.scalar(), L[-1]]
+            if ctx.rng.random() < 0.5:
+                y['c'] = [y['c'][0] + [9], 0]
+            pair = (x, y)
+        if in_universe(*pair):
+            out.append(pair)
+    # the smallest wrappers: the shared position holds the only difference
+    for sc in ([7], [True], ['a'], (7,), (None,), {'a': 1}, {1: 'x'}, [[1, 2]], ({'k': 0},)):
+        c = copy.deepcopy(sc)
+        w = [c] if isinstance(c, list) else ((c,) if isinstance(c, tuple) else {next(iter(c)): c})
+        out.append((w, c)); out.append((c, w))
+    return out
+
+
 def single_edit_neighbours(ctx, v, k):
     g = Gen(ctx.rng, keys=KEYS_C03, max_depth=2, max_width=3)
     return [g.edit(v) for _ in range(k)]
